@@ -341,6 +341,24 @@ impl<Key: Hash + Eq + Clone> Limiter<Key> {
     }
 }
 
+#[cfg(feature = "verif-hooks")]
+impl Quota {
+    pub fn verif_new(max_tokens: u64, replenish_all_every: Duration) -> Self {
+        Quota {
+            replenish_all_every,
+            max_tokens,
+        }
+    }
+}
+
+#[cfg(feature = "verif-hooks")]
+impl<Key: Hash + Eq + Clone> Limiter<Key> {
+    /// Number of keys currently tracked (for prune-differential fingerprints).
+    pub fn verif_len(&self) -> usize {
+        self.tat_per_key.len()
+    }
+}
+
 #[cfg(test)]
 mod tests {
     use super::{Limiter, Quota};
